@@ -368,7 +368,57 @@ class AObj(Sym):
     def __repr__(self) -> str:
         return "<%s %s>" % (self._cls_.name, ", ".join("%s=%r" % kv for kv in sorted(self.__dict__.items()) if not kv[0].endswith("_") or not kv[0].startswith("_")))
 
+    # -- instances of a class-syntax NamedTuple are records: ordered fields, value equality, unpacking, indexing
+    def _record(self) -> Optional[List[str]]:
+        return self.__dict__.get("_record_fields_")
+
+    def __eq__(self, other: Any) -> bool:
+        r = self._record()
+        if r is None:
+            return self is other
+        if isinstance(other, AObj) and other._record() is not None:
+            return tuple(self) == tuple(other)
+        if isinstance(other, tuple):
+            return tuple(self) == other
+        return False
+
+    def __ne__(self, other: Any) -> bool:
+        return not self.__eq__(other)
+
+    def __hash__(self) -> int:
+        r = self._record()
+        return id(self) if r is None else hash(tuple(self))
+
+    def __len__(self) -> int:
+        r = self._record()
+        if r is None:
+            raise TypeError("%s has no len()" % self._cls_.name)
+        return len(r)
+
+    def __getitem__(self, i: Any) -> Any:
+        r = self._record()
+        if r is None:
+            raise TypeError("%s is not subscriptable" % self._cls_.name)
+        return tuple(self)[i]
+
+    def _replace(self, **kw: Any) -> "AObj":
+        r = self._record()
+        if r is None:
+            raise AttributeError("_replace")
+        o = AObj(self._cls_, self._ctx_, **{k: kw.get(k, self.__dict__[k]) for k in r})
+        o.__dict__["_record_fields_"] = list(r)
+        return o
+
+    def _asdict(self) -> Dict[str, Any]:
+        r = self._record()
+        if r is None:
+            raise AttributeError("_asdict")
+        return {k: self.__dict__[k] for k in r}
+
     def __iter__(self) -> Any:
+        r = self._record()
+        if r is not None:
+            return iter([self.__dict__[k] for k in r])
         # iteration over an abstract instance: the class's own __iter__, evaluated
         from .fold import _CURRENT
 
@@ -507,7 +557,8 @@ def construct(ctx: Any, cls: ClassInfo, *args: Any, hook: Any = None, **kwargs: 
     o = AObj(cls, ctx)
     stmts, chain = flatten_init(repo, cls, inline_props=False, node_of=ctx.inl)
     if not chain:
-        if any("dataclass" in (dotted(d.func) if isinstance(d, ast.Call) else dotted(d) or "") for d in cls.node.decorator_list):
+        is_nt = any((dotted(b) or "").split(".")[-1] == "NamedTuple" for k in repo.mro(cls) if isinstance(k, ClassInfo) for b in k.node.bases)
+        if is_nt or any("dataclass" in (dotted(d.func) if isinstance(d, ast.Call) else dotted(d) or "") for d in cls.node.decorator_list):
             # a dataclass: the generated constructor stores its fields (class-body annotations, in order)
             fields = []
             for k in reversed([k for k in repo.mro(cls) if isinstance(k, ClassInfo)]):
@@ -525,6 +576,8 @@ def construct(ctx: Any, cls: ClassInfo, *args: Any, hook: Any = None, **kwargs: 
                         raise Unfoldable("constructor argument %s of %s not given" % (name, cls.name))
                     vals[name] = Folder({}, repo, cls.module, cls, hook).fold(default)
                 o.__dict__[name] = vals[name]
+            if is_nt:
+                o.__dict__["_record_fields_"] = [f_[0] for f_ in fields]
         return o
     init = chain[0]
     a = ctx.inl(init).args
@@ -577,6 +630,53 @@ def call_fn(ctx: Any, fn: Any, args: Sequence[Any], kwargs: Optional[Dict[str, A
     is_gen = _is_generator(node)
     r = ev.run(body_without_docstring_(node))
     return list(ev.yielded) if is_gen else r
+
+
+class _RepoShim:
+    """what call_fn needs of a rule context, for functions met as values during an evaluation"""
+
+    _inliners: Dict[int, Any] = {}
+
+    def __init__(self, repo: Any):
+        self.repo = repo
+        from .inline import Inliner
+
+        k = id(repo)
+        if k not in _RepoShim._inliners:
+            _RepoShim._inliners[k] = (repo, Inliner(repo))
+        self._inl = _RepoShim._inliners[k][1]
+
+    def inl(self, fn: Any, keep: Sequence[str] = ()) -> Any:
+        return self._inl.inlined(fn, keep=tuple(keep))
+
+
+class FnRef(Abstract):
+    """a function / static method / class method / unbound method of the repository as a first-class value"""
+
+    def __init__(self, repo: Any, fn: Any, hook: Any):
+        self.repo, self.fn, self.hook = repo, fn, hook
+        self.__dict__["__name__"] = fn.name
+
+    def __repr__(self) -> str:
+        return "<function %s>" % self.fn.short
+
+    def __eq__(self, other: Any) -> bool:
+        return isinstance(other, FnRef) and other.fn is self.fn
+
+    def __hash__(self) -> int:
+        return hash(self.fn.qualname)
+
+    def __call__(self, *args: Any, **kwargs: Any) -> Any:
+        from .fold import _CURRENT
+
+        fn = self.fn
+        hook = _CURRENT[-1].hook if _CURRENT and _CURRENT[-1].hook is not None else self.hook
+        if fn.cls is not None and not fn.is_static:
+            if fn.is_classmethod:
+                args = (fn.cls,) + tuple(args)
+            elif args and isinstance(args[0], AObj):
+                return _BoundMethod(args[0], fn).call(_CURRENT[-1], list(args[1:]), kwargs)
+        return call_fn(_RepoShim(self.repo), fn, list(args), kwargs, hook=hook, keep=tuple(fn.module.functions) if fn.cls is None else ())
 
 
 class Recorder(Abstract):
